@@ -8,6 +8,7 @@ import (
 	"os"
 	"path/filepath"
 	"regexp"
+	"runtime/debug"
 	"sort"
 	"strings"
 
@@ -162,6 +163,9 @@ func (l *Loaded) verifyFunc(r *Runner, fn *ssa.Function, sp *FuncSpec) (res *FnR
 	defer func() {
 		res.Paths = r.paths
 		if e := recover(); e != nil {
+			if os.Getenv("GOVC_DEBUG") != "" {
+				fmt.Fprintf(os.Stderr, "panic in %s: %v\n%s\n", sp.Key, e, debug.Stack())
+			}
 			switch x := e.(type) {
 			case unsupportedErr:
 				res.Err = x.Error()
